@@ -298,7 +298,7 @@ def _pair_tables(F):
     return out
 
 
-def digit_pair(S, F, p, val, dst, reverse, tabs):
+def digit_pair(S, F, p, val, dst, reverse, tabs, _depth=0, _values=False):
     """What the two bytes at `dst` become on path p as a function of the byte `val` (normalised expression), evaluated for all
     256 values and compared with the reference digits (upper case; low nibble first iff reverse).  Returns None if correct,
     else a description."""
@@ -323,15 +323,39 @@ def digit_pair(S, F, p, val, dst, reverse, tabs):
             writes.append((m["i"], v))
         elif find_all(npl, lambda y: y == dst):
             return "store to %s" % sym.fmt(npl)
-    kinds = sorted(str(w[0]) for w in writes)
+    # the pair written by a local single-byte encoder called on the whole chunk (its own returning path evaluated the same way)
+    for c in p.calls:
+        cb = F.fn(c[1]) if not c[1].startswith(("core::", "alloc::", "std::")) else None
+        if cb is None or len(c[2]) != 2 or not find_all(n(c[2][0]), lambda y: y == dst):
+            continue
+        w = layout.window(n(c[2][0]), dst)
+        if w is None or w[0] != ("const", 0) or w[1] not in (None, ("const", 2)):
+            return "call to %s on %s" % (c[1].rsplit("::", 1)[-1], sym.fmt(n(c[2][0])))
+        if _depth > 2:
+            return "nested encoder calls"
+        S2 = sym.Sym(cb)
+        ps2 = [q for q in S2.paths() if q.end == "return"]
+        if len(ps2) != 1:
+            return "%s has %d returning paths" % (c[1].rsplit("::", 1)[-1], len(ps2))
+        sub = digit_pair(S2, F, ps2[0], ("param", 2), ("param", 1), reverse, tabs, _depth + 1, True)
+        if isinstance(sub, str):
+            return "%s: %s" % (c[1].rsplit("::", 1)[-1], sub)
+        writes.append(("callee", sub, c[2][1]))
+    kinds = sorted("pair" if w[0] == "callee" else str(w[0]) for w in writes)
     if kinds not in (["pair"], ["0", "1"]):
         return "writes %s; reference one 2-byte copy or stores to [0] and [1]" % kinds
+    allv = []
     for v in range(256):
         asg = {"subst": {val: v}, "src": {}, "len": 2, "pairs": pairs}
         got = [None, None]
         try:
             for w in writes:
-                if w[0] == "pair":
+                if w[0] == "callee":
+                    i = _ev(S, F, w[2], asg, tabs)
+                    if not isinstance(i, int) or not (0 <= i < 256):
+                        return "callee argument %s for value %d" % (i, v)
+                    got = list(w[1][i])
+                elif w[0] == "pair":
                     src_ = w[1]
                     e = src_
                     while e[0] in ("ref", "cast"):
@@ -349,9 +373,12 @@ def digit_pair(S, F, p, val, dst, reverse, tabs):
             return "cannot evaluate: %s" % ex
         lo_d, hi_d = UPPER[v & 15], UPPER[v >> 4]
         want = [lo_d, hi_d] if reverse else [hi_d, lo_d]
+        if _values:
+            allv.append(got)
+            continue
         if got != want:
             return "byte 0x%02x is written as %r; reference %r" % (v, bytes(x if isinstance(x, int) else 63 for x in got), bytes(want))
-    return None
+    return allv if _values else None
 
 
 def encoders(ctx, r, F):
